@@ -267,8 +267,23 @@ def run_property(prop_id, tier, seed, jobs=None, only=None, verbose=False):
     wall = time.perf_counter() - t0
     write_evidence(mod, prop_id, tier, seed, results, violations, known_hits,
                    harness_errors, inconclusive, funcs, val, wall)
-    for (kid, what, shard) in sorted(set((a, b, '') for a, b, _c in known_hits)):
-        print("KNOWN-FINDING: property=%s %s [%s]" % (prop_id, what, kid))
+    # every OPEN finding listed for this property is announced on every run: the ones a
+    # shard of this run ran into, and the ones whose stand-alone reproduction script
+    # (findings/<id>.py, public API + real hyperframe/hpack only) still reproduces
+    announced = {}
+    for (kid, what, _shard) in known_hits:
+        announced[kid] = what
+    for k in known:
+        if k.get('status') == 'open' and k['property'] == prop_id and k['id'] not in announced:
+            rp = k.get('repro')
+            if rp and os.path.exists(os.path.join(ROOT, rp)):
+                import subprocess
+                r = subprocess.run([sys.executable, os.path.join(ROOT, rp)],
+                                   capture_output=True, text=True, timeout=120)
+                if r.returncode == 1:
+                    announced[k['id']] = k['what'] + ' (reproduction script %s)' % rp
+    for kid in sorted(announced):
+        print("KNOWN-FINDING: property=%s %s [%s]" % (prop_id, announced[kid], kid))
     for name, reason in inconclusive:
         print("INCONCLUSIVE shard=%s reason=%s" % (name, reason))
     n_ok = sum(1 for r in results if r['status'] == 'confirmed')
